@@ -100,10 +100,16 @@ def coq_check(c, r):
                 return opt(None)
             return opt(([T(p) for p in v[0]["points"]], [T(p) for p in v[1]["points"]]))
         rev = r["reversed"]
-        return "check_portion %s %s %s %s %s %s %s %s %s %s %s %s %s" % (
+        term = "check_portion %s %s %s %s %s %s %s %s %s %s %s %s %s" % (
             coq(pts), coq(c["tol"]), coq(bool(c["closed"])), coq(r["l0"]), coq(r["l1"]), coq(r["lc"]),
             coq(opts(r["between"])), coq(opts(r["control"])), coq(opts(r["trim_front"])), coq(opts(r["trim_back"])),
             coq(pr(r["split"])), coq(pr(r["split_wrong"])), coq(opt(None if rev.get("panic") else [T(p) for p in rev["curve"]["points"]])))
+        es = r.get("edge_sub")
+        if es and not any(isinstance(es[n], dict) and es[n].get("panic") for n in ("fwd", "rev")):
+            # the model of the edge extraction, run on the arc lengths the implementation found for the two ray ends
+            one = lambda a, b, v: "check_edge_sub %s %s %s %s %s %s %s" % (coq(pts), coq(c["tol"]), coq(bool(c["closed"])), coq(a), coq(b), coq(es["frac"]), coq(opts(v)))
+            term = "both (%s) (both (%s) (%s))" % (term, one(es["la"], es["lb"], es["fwd"]), one(es["ra"], es["rb"], es["rev"]))
+        return term
     if k == "c04.chain":
         steps = [(s["l0"], s["l1"], opts(s["out"])) for s in r["steps"]]
         return "check_chain %s %s %s %s" % (coq(pts), coq(c["tol"]), coq(bool(c["closed"])), coq(steps))
@@ -216,8 +222,8 @@ def oracle(c, r):
         # shorter than a fraction of the perimeter, whichever of the two orders is the well-posed one
         es = r.get("edge_sub")
         if es:
-            la, lb, fr = es["la"], es["lb"], es["frac"]
-            for name, (a, b) in (("fwd", (la, lb)), ("rev", (lb, la))):
+            fr = es["frac"]
+            for name, (a, b) in (("fwd", (es["la"], es["lb"])), ("rev", (es["ra"], es["rb"]))):
                 got = es[name]
                 if isinstance(got, dict) and got.get("panic"):
                     yield ("edge-portion", "extract_edge_sub_curve panicked (ray ends at arc lengths %r and %r of %r)" % (a, b, L))
